@@ -86,6 +86,11 @@ var multiDiag = []string{
 	"grammar md;\nstart = start \"+\" start | start \"*\" start | start \"-\" start | \"n\";\n",
 	"grammar md;\nstart = a | b | c;\na = \"x\";\nb = \"x\";\nc = \"x\" \"y\" | \"x\";\n",
 	"grammar md;\nstart = start start | \"a\" | ;\n",
+	// unresolved conflicts on rules the tool generates itself for groups of several symbols (their
+	// names carry a running number)
+	"grammar md;\nID = /[a-z]+/;\nstart = [ ID \",\" ] ID;\n",
+	"grammar md;\nstart = [ \"x\" \"y\" ] [ \"x\" \"z\" ] \"x\" | ( \"x\" \"y\" | \"x\" ) \"y\";\n",
+	"grammar md;\nID = /[a-z]+/;\nstart = { ID \"=\" ID } [ ID \";\" ] ID;\nother = {{ ID ID }} ID;\n",
 	// missing start plus other problems
 	"grammar md;\nAA = \"q\"; BB = \"q\";\nrule = U1 U2 AA BB;\nother = missing1 missing2;\n",
 	// precedence handles in several levels
